@@ -16,9 +16,11 @@ import (
 // argument patterns) are parsed by the independent table-driven parser; the fields must be the intended ones.
 func nasConstructors(ctx *Ctx, tab *refnas.Table) {
 	r := ctx.R
+	var ctorHeld held
 	l := r.Local()
 	parse := func(name string, b []byte, cs string) (mand [][]byte, opts map[string][]byte, ok bool) {
 		t := nasMsgByName(tab, name)
+		ctorHeld.next(r, "constructor/result-changed-by-a-later-constructor-call", b, cs)
 		l.Case(cs, true, fmt.Sprint(len(b)))
 		if len(b) < 3 {
 			r.Violate("constructor/"+name+"/too-short", cs, fmt.Sprintf("%x", b), nil)
